@@ -229,10 +229,13 @@ def _retained(t, rng, ctor, sf, tag, data_in, full, info):
 
 
 def _slicing(t, rng, ctor, tag, data_in, full, ng, nw, info):
-    for _ in range(3):
+    for rep in range(4):
         W, Wi = _words_sel(rng, nw)
-        gk = int(rng.integers(3))
-        if gk == 0:
+        gk = int(rng.integers(3)) if rep else 3
+        if gk == 3:
+            # every guess value exactly once, but not in natural order
+            G = (np.arange(ng)[::-1] if rng.random() < 0.5 else rng.permutation(ng)).astype('uint8')
+        elif gk == 0:
             G = np.arange(ng, dtype='uint8')
         elif gk == 1:
             G = rng.permutation(ng).astype('uint8')[:int(rng.integers(1, ng + 1))]
